@@ -1,6 +1,7 @@
 import IsoVerif.Driver.Core
 import IsoVerif.Driver.C05
 import IsoVerif.Model.RegionsMulti
+import IsoVerif.Model.ChromHeaders
 
 namespace IsoVerif.Driver.C05Multi
 open Lean IsoVerif.Driver IsoVerif.Gen IsoVerif.Model IsoVerif.Model.Regions IsoVerif.Model.RegionsMulti
@@ -25,6 +26,10 @@ def jFAln (j : Json) : Except String FAln := jPair jNat jAln j
 def jChrom (j : Json) : Except String (List (List Aln) × Int) := do
   pure (← jFiles (← arg j "files"), ← jInt (← arg j "L"))
 
+/-- one file with its header entry: `{"len": LN or null, "recs": [...]}` -/
+def jHFile (j : Json) : Except String HFile := do
+  pure ⟨← jOpt jInt (← arg j "len"), ← jAlns (← arg j "recs")⟩
+
 def lookup (tbl : List (String × String)) (k : String) : Option String :=
   match tbl.find? (fun p => p.1 == k) with
   | some p => some p.2
@@ -41,6 +46,13 @@ def ops : List (String × Handler) := [
       pure (ofPairs (regionStream (restOf files.flatten.toArray) (tagFiles 0 files) (← jIv (← arg j "region"))))),
   ("chrom_stats", fun j => do
       pure (ofStats (chromStatsFiles (← jFiles (← arg j "files")) (← jInt (← arg j "L"))))),
+  ("collect_headers", fun j => do
+      pure (ofForwardM (collectHeaders (← jMode (← arg j "mode")) (← jList jHFile (← arg j "hfiles"))
+        (← jOpt jInt (← arg j "fasta"))))),
+  ("chrom_stats_headers", fun j => do
+      pure (ofStats (chromStatsHeaders (← jList jHFile (← arg j "hfiles")) (← jOpt jInt (← arg j "fasta"))))),
+  ("chrom_length", fun j => do
+      pure (ofInt (chromLength (← jList jHFile (← arg j "hfiles"))))),
   ("mem_get_m", fun j => do
       let pairs ← jList jFAln (← arg j "pairs")
       let s := pairs.foldl MStore.add MStore.empty
